@@ -14,7 +14,7 @@ import (
 
 func init() {
 	register("C06",
-		"WAKE: every potentially unbounded wait of the send goroutine (enumerated over the same-goroutine call graph) has a case on resendTicker.C or on resendSignal whose body reaches queue.resend, or is itself timer-bounded - tail loss is repaired wherever the loop waits. BOUNDED: the waits inside the resend path (syncer.waitForSync, proceedAfterTime) have a timer and a quit alternative. QUIESCE: queue.resend transmits only under the fact base != top (nothing is retransmitted once everything is acknowledged) and the resend ticker is re-armed after each resend. NACKWIRE: in the receive loop a NACK that asks for a resend reaches a non-blocking send on resendSignal (capacity >= 1) on every path, a valid ACK reaches a non-blocking send on receivedACKSignal, the window-full loop re-tests size() < n before every wait, and the receiver suppresses a NACK only under a time-bounded fact. STARVE: outside the send goroutine the resend ticker is restarted only under the fact that an ACK/NACK made progress on our own queue, so inbound traffic cannot postpone a retransmission forever. Not decided: bounds on delivery time, absence of livelock between syncer, NACK back-off and resend (liveness over all schedules is out of reach of a static argument here).",
+		"WAKE: every potentially unbounded wait of the send goroutine (enumerated over the same-goroutine call graph) has a case on resendTicker.C or on resendSignal whose body reaches queue.resend, or is itself timer-bounded - tail loss is repaired wherever the loop waits. BOUNDED: the waits inside the resend path (syncer.waitForSync, proceedAfterTime) have a timer and a quit alternative. QUIESCE: queue.resend transmits only under the fact base != top (nothing is retransmitted once everything is acknowledged) and the resend ticker is re-armed after each resend. NACKWIRE: in the receive loop a NACK that asks for a resend reaches a non-blocking send on resendSignal (capacity >= 1) on every path, a valid ACK reaches a non-blocking send on receivedACKSignal, the window-full loop re-tests size() < n before every wait, and the receiver suppresses a NACK only under a time-bounded fact. RATELIMIT: queue.resend is skipped only while the last resend is recent or the queue is empty, and lastResend is refreshed only by a real resend. KA (as C13) and WIN-4 (as C01) are re-checked here because the property also promises a visible failure with keepalive on and an end to retransmission once everything is acknowledged. STARVE: outside the send goroutine the resend ticker is restarted only under the fact that an ACK/NACK made progress on our own queue, so inbound traffic cannot postpone a retransmission forever. Not decided: bounds on delivery time, absence of livelock between syncer, NACK back-off and resend (liveness over all schedules is out of reach of a static argument here).",
 		[]string{"time.Ticker delivers a tick on C at most one period after Reset"},
 		runC06)
 }
@@ -220,6 +220,71 @@ func runC06(c *Checker) {
 		c.decide(okk, "QUIESCE", "resendQueue|ticker re-armed after resend", rq.Pos(), "resendTicker.Reset follows queue.resend", "the resend ticker is not re-armed after a resend")
 	}
 	c.floor("QUIESCE", 2)
+
+	// ---- RATELIMIT: resend may only be skipped while the previous resend is recent ----
+	fLast := w.Field("gbn.queue.lastResend")
+	if fLast == nil {
+		c.anchorFail("gbn.queue.lastResend")
+	} else {
+		// every nil return that precedes the transmissions is under: recent resend, or empty queue
+		recent := func(f Fact) bool {
+			bo, ok := f.Cond.(*ssa.BinOp)
+			if !ok || !f.Val || bo.Op != token.LSS {
+				return false
+			}
+			call, ok := unwrapLoadAlloc(bo.X).(*ssa.Call)
+			return ok && staticCalleeIs(call.Common(), "time", "", "Since") && isLoadOfField(call.Common().Args[0], fLast)
+		}
+		empty := func(f Fact) bool {
+			bo, ok := f.Cond.(*ssa.BinOp)
+			if !ok || !f.Val || bo.Op != token.EQL {
+				return false
+			}
+			if call, ok := bo.X.(*ssa.Call); ok && call.Common().StaticCallee() == size {
+				k, ok := intConst(bo.Y)
+				return ok && k == 0
+			}
+			return derivesFromField(bo.X, fBase, 0) && derivesFromField(bo.Y, fTop, 0) || derivesFromField(bo.X, fTop, 0) && derivesFromField(bo.Y, fBase, 0)
+		}
+		var sends []ssa.Instruction
+		allInstrs(resend, func(in ssa.Instruction) {
+			if call, ok := in.(*ssa.Call); ok {
+				if f := chanField(call.Common().Value); f != nil && f.Name() == "sendPkt" {
+					sends = append(sends, in)
+				}
+			}
+		})
+		okk := len(sends) > 0
+		allInstrs(resend, func(in ssa.Instruction) {
+			ret, ok := in.(*ssa.Return)
+			if !ok {
+				return
+			}
+			// early returns: not reachable from a transmission
+			for _, sd := range sends {
+				if pathExists(sd, ret, nil) {
+					return
+				}
+			}
+			if !(hasFact(ret.Block(), recent) || hasFact(ret.Block(), empty)) {
+				okk = false
+			}
+		})
+		// lastResend is refreshed only when a resend actually starts (not on the skipped calls)
+		for _, st := range w.Stores(fLast) {
+			if st.Parent() != resend {
+				c.fail("RATELIMIT", "lastResend|written in "+fnName(st.Parent()), instrPos(st), "lastResend is written outside queue.resend")
+				continue
+			}
+			if hasFact(st.Block(), recent) {
+				okk = false
+			}
+		}
+		c.decide(okk, "RATELIMIT", "queue.resend|skipped only while the last resend is recent or the queue is empty", resend.Pos(),
+			"every early nil return is under time.Since(lastResend) < timeout or an empty queue; lastResend is refreshed only by a real resend",
+			"queue.resend can be skipped although the last resend is old and packets are outstanding (or lastResend is refreshed by skipped calls): retransmission stops")
+	}
+	c.floor("RATELIMIT", 1)
 
 	// ---- NACKWIRE ----
 	head := loopHeadOf(rl)
